@@ -689,6 +689,21 @@ static void run_tape(const struct cdef *c, uint64_t idx)
                 VRT_COUNT("tape.pivot-tapes-enumerated");
                 if (tape_pos == 3) VRT_COUNT("tape.fully-consumed");
             }
+        /* the values above are what the CURRENT mapping (rand() % count) needs; the property speaks of
+         * every pivot the variant can draw, so the extremes of rand()'s range are presented too: an
+         * implementation that maps the draw differently (scaling, bias correction) must still stay in range */
+        if (c->d0 <= 0) {
+            static const int ext[] = { 2147483647, 2147483646, 1073741823, 1073741824, 2147483647 - 7 };
+            int pos, e, fill;
+            for (pos = 0; pos < 3; pos++) for (e = 0; e < (int)(sizeof(ext) / sizeof(ext[0])); e++) for (fill = 0; fill < 2; fill++) {
+                tape[0] = tape[1] = tape[2] = fill ? (n > 0 ? n - 1 : 0) : 0;
+                tape[pos] = ext[e]; tape_n = 3;
+                vrt_rng_seed(&rand_rng, vrt_seed, vrt_mix(idx, x * 4096 + 4000 + pos * 16 + e * 2 + fill));
+                X.style = e & 1;
+                run_array(&b, S_QUICK_R, NULL, 0, 0, code, (uint64_t)(0xE | pos << 4 | e << 8 | fill << 12));
+                VRT_COUNT("tape.extreme-rand-values");
+            }
+        }
     }
     vrt_ctr[size_ctr[c->sizeidx]] += total;
     bench_close(&b);
@@ -760,7 +775,7 @@ static void run_large_n(const struct cdef *c, uint64_t idx, size_t n, vrt_rng *g
     fill_pattern(&b, c->pat, g, keys);
     np = large_probes(&b, keys, g, pr);
     tape_n = (int)vrt_below(g, 4);
-    for (i = 0; i < tape_n; i++) tape[i] = vrt_chance(g, 1, 2) ? (int)vrt_below(g, (uint32_t)n + 1) : (int)(vrt_next(g) >> 33);
+    for (i = 0; i < tape_n; i++) tape[i] = vrt_chance(g, 1, 2) ? (int)vrt_below(g, (uint32_t)n + 1) : vrt_chance(g, 1, 4) ? 2147483647 - (int)vrt_below(g, 2) : (int)(vrt_next(g) >> 33);
     if (vrt_chance(g, 1, 4) && tape_n > 0) tape[0] = (int)n - 1;       /* pivot = last element first */
     vrt_rng_seed(&rand_rng, vrt_seed, vrt_mix(idx, n));
     X.style = (int)vrt_below(g, 2);
@@ -834,7 +849,7 @@ static void run_random(const struct cdef *c, uint64_t idx)
         np = large_probes(&b, keys, &g, pr);
         tape_n = (int)vrt_below(&g, 4);
         for (i = 0; i < tape_n; i++)
-            tape[i] = vrt_chance(&g, 1, 3) ? (int)n - 1 : vrt_chance(&g, 1, 2) ? (int)vrt_below(&g, (uint32_t)n + 1) : (int)(vrt_next(&g) >> 33);
+            tape[i] = vrt_chance(&g, 1, 3) ? (int)n - 1 : vrt_chance(&g, 1, 2) ? (int)vrt_below(&g, (uint32_t)n + 1) : vrt_chance(&g, 1, 4) ? 2147483647 - (int)vrt_below(&g, 2) : (int)(vrt_next(&g) >> 33);
         vrt_rng_seed(&rand_rng, vrt_seed, vrt_mix(idx, r));
         X.style = (int)vrt_below(&g, 2);
         run_array(&b, sel, pr, np, F_PREFIND | F_SEARCH | F_REVERSE | F_SIG, 0xA000 + A, tape_n);
